@@ -106,6 +106,27 @@ def analyse(path):
             if isinstance(n, ast.ImportFrom):
                 for al in n.names:
                     local.add(al.asname or al.name)
+        # locals bound to sets, and locals bound to objects this function did not create (parameters, attribute reads, getattr)
+        set_locals, borrowed = set(), {}
+        for a_ in fn.args.args:
+            if a_.arg not in ("self", "cls"):
+                borrowed[a_.arg] = "parameter %s" % a_.arg
+        for n in ast.walk(fn):
+            if isinstance(n, ast.Assign) and len(n.targets) == 1 and isinstance(n.targets[0], ast.Name):
+                nm, v = n.targets[0].id, n.value
+                if (isinstance(v, ast.Call) and (_name_chain(v.func) or "") in ("set", "frozenset")) or isinstance(v, (ast.Set, ast.SetComp)):
+                    set_locals.add(nm)
+                fresh = isinstance(v, (ast.Constant, ast.BinOp, ast.UnaryOp, ast.Dict, ast.List, ast.Tuple, ast.Set, ast.ListComp, ast.DictComp, ast.SetComp, ast.JoinedStr,
+                                       ast.Compare, ast.BoolOp, ast.Lambda, ast.GeneratorExp, ast.IfExp))
+                if isinstance(v, ast.Call):
+                    callee = (_name_chain(v.func) or (v.func.attr if isinstance(v.func, ast.Attribute) else ""))
+                    fresh = callee.split(".")[-1] not in ("getattr", "get", "asarray", "setdefault", "pop")
+                if isinstance(v, (ast.Attribute, ast.Subscript, ast.Name)):
+                    fresh = False
+                    if isinstance(v, ast.Name) and v.id not in borrowed:
+                        fresh = True
+                if not fresh and nm not in borrowed:       # flow-insensitive: borrowed once, borrowed always (parameters included)
+                    borrowed[nm] = ast.unparse(v)[:50]
         globals_declared = set()
         for n in ast.walk(fn):
             if isinstance(n, (ast.Global, ast.Nonlocal)):
@@ -159,8 +180,20 @@ def analyse(path):
                     rep.ambient.append("file-system probe %s at line %d" % (ast.unparse(n)[:50], n.lineno))
             if isinstance(n, (ast.For, ast.comprehension)):
                 it = n.iter
-                if (isinstance(it, ast.Call) and (_name_chain(it.func) or "") in ("set", "frozenset")) or isinstance(it, (ast.Set, ast.SetComp)):
+                if (isinstance(it, ast.Call) and (_name_chain(it.func) or "") in ("set", "frozenset")) or isinstance(it, (ast.Set, ast.SetComp)) or \
+                        (isinstance(it, ast.Name) and it.id in set_locals) or \
+                        (isinstance(it, ast.Call) and isinstance(it.func, ast.Name) and it.func.id in ("list", "tuple", "enumerate", "iter") and it.args
+                         and isinstance(it.args[0], ast.Name) and it.args[0].id in set_locals):
                     rep.set_iter.append("iteration over %s at line %d" % (ast.unparse(it)[:60], getattr(n, "lineno", getattr(it, "lineno", 0))))
+            # in-place update of an object that was not created in this function (aliasing through a local name)
+            if isinstance(n, ast.AugAssign) and isinstance(n.target, ast.Name) and n.target.id in borrowed:
+                rep.writes.append("in-place %s= on %s, which is bound to %s (possibly shared with the caller / a cache) at line %d"
+                                  % (type(n.op).__name__, n.target.id, borrowed[n.target.id], n.lineno))
+            if isinstance(n, (ast.Assign, ast.AugAssign)):
+                tg = n.targets if isinstance(n, ast.Assign) else [n.target]
+                for t in tg:
+                    if isinstance(t, ast.Subscript) and isinstance(t.value, ast.Name) and t.value.id in borrowed:
+                        rep.writes.append("item assignment into %s, which is bound to %s (possibly shared) at line %d" % (t.value.id, borrowed[t.value.id], n.lineno))
         reports[qual] = rep
 
     for st in tree.body:
